@@ -292,10 +292,11 @@ Proof.
   - inversion H; subst. split; auto. apply get_none. assumption.
 Qed.
 
-Lemma model_apply_frame h m d h1 r : model_apply h m d = Some (h1, r) -> ext h h1 /\ length h <= r.
+Lemma model_apply_spec h m d h1 r : model_apply h m d = Some (h1, r) ->
+  ext (geometry_getter h d (Some wild)) h1 /\ length (geometry_getter h d (Some wild)) <= r.
 Proof.
-  unfold model_apply. destruct (name_of 50 h d); [|discriminate].
-  destruct (py_copy h m) as [h0 n] eqn:E. intros H. inversion H; subst.
+  unfold model_apply. destruct (name_of 50 (geometry_getter h d (Some wild)) d); [|discriminate].
+  destruct (py_copy (geometry_getter h d (Some wild)) m) as [h0 n] eqn:E. intros H. inversion H; subst.
   destruct (py_copy_spec _ _ _ _ E) as [E1 L]. split; auto. apply ext_setattr_fresh; assumption.
 Qed.
 
@@ -386,6 +387,31 @@ Proof.
   apply ext_setattr_fresh; assumption.
 Qed.
 
+(* the geometry getter run on a location allocated by the current operation *)
+Lemma geometry_getter_ext_fresh h0 h l dim : ext h0 h -> length h0 <= l -> ext h0 (geometry_getter h l dim).
+Proof.
+  intros E L. unfold geometry_getter. destruct (get h l) as [o|]; auto.
+  destruct (getf o "_geometry") as [[| | | | |g| | |]|]; auto.
+  assert (N : forall h1 g1, ext h0 h1 ->
+            ext h0 match getf o "_name" with Some (VStr s) => setattr h1 g1 "_variable_name" (VStr s) | _ => h1 end).
+  { intros h1 g1 E1. destruct (getf o "_name") as [[| |s| | | | | |]|]; auto. apply ext_setattr_cache; [reflexivity | assumption]. }
+  destruct dim as [d|]; [|apply N; assumption].
+  destruct (unset_geom_at h g); [|apply N; assumption].
+  unfold alloc. apply N. apply ext_setattr_fresh; [apply ext_alloc; assumption | assumption].
+Qed.
+
+Lemma geometry_getter_length h l dim : length h <= length (geometry_getter h l dim).
+Proof.
+  unfold geometry_getter. destruct (get h l) as [o|]; auto.
+  destruct (getf o "_geometry") as [[| | | | |g| | |]|]; auto.
+  assert (N : forall h1 g1, length h <= length h1 ->
+            length h <= length match getf o "_name" with Some (VStr s) => setattr h1 g1 "_variable_name" (VStr s) | _ => h1 end).
+  { intros h1 g1 L1. destruct (getf o "_name") as [[| |s| | | | | |]|]; auto. rewrite setattr_length. assumption. }
+  destruct dim as [d|]; [|apply N; lia].
+  destruct (unset_geom_at h g); [|apply N; lia].
+  unfold alloc. apply N. rewrite setattr_length, app_length. simpl. lia.
+Qed.
+
 Lemma filter_head_in {A} (p : A -> bool) l x r : filter p l = x :: r -> In x l /\ p x = true.
 Proof. intros H. apply filter_In. rewrite H. left. reflexivity. Qed.
 
@@ -403,13 +429,19 @@ Proof.
   destruct (Nat.ltb 1 (count_if (is_dist_at h) rs)).
   { inversion H; subst. split; auto. left. assumption. }
   destruct (Nat.eqb (count_if (is_dist_at h) rs) 1 && Nat.ltb 1 (count_if (is_lik_at h) rs)).
-  { unfold alloc in H. inversion H; subst. split; [apply ext_alloc; assumption|]. left. destruct E. lia. }
+  { destruct (forallb _ rs); [|discriminate].
+    unfold alloc in H. inversion H; subst. split; [apply ext_alloc; assumption|]. left. destruct E. lia. }
   destruct (Nat.eqb (count_if (is_dist_at h) rs) 1 && Nat.eqb (count_if (is_lik_at h) rs) 1).
   { destruct (filter (is_lik_at h) rs) as [|lk ?] eqn:Fl; [discriminate|].
     destruct (filter (is_dist_at h) rs) as [|d ?] eqn:Fd; [discriminate|].
     destruct (negb (same_set (param_names hints 50 h lk) (param_names hints 50 h d))).
     { inversion H; subst. split; auto. left. assumption. }
     destruct (negb (Nat.eqb (length (param_names hints 50 h lk)) 1)); [discriminate|].
+    destruct (filter_head_in _ _ _ _ Fd) as [Hin Hd].
+    assert (Fr : length h0 <= d).
+    { rewrite Forall_forall in F. destruct (F _ Hin) as [Fr|[_ Nd]]; [assumption | congruence]. }
+    pose proof (geometry_getter_ext_fresh h0 h d (Some wild) E Fr) as Eq.
+    pose proof (geometry_getter_length h d (Some wild)) as Lq.
     unfold alloc in H. inversion H; subst. split.
     - apply add_constants_fresh; [apply ext_alloc; assumption | destruct E; lia].
     - left. destruct E. lia. }
@@ -466,6 +498,7 @@ Proof.
     - eapply Forall_impl; [|exact F2]. intros a [Fa|[La Da]]; [left; assumption|]. right.
       split; [rewrite setattr_length; assumption|].
       unfold is_dist_at in *. rewrite class_at_setattr; [assumption|]. intros X; discriminate. }
+  destruct (existsb _ (keys kw)); [discriminate|].
   destruct (make_copy h self) as [h1 n] eqn:Em. destruct (make_copy_spec _ _ _ _ Em) as [E1 L1].
   destruct (cond_loop (fun hh d => cond hints false k hh d []) h1 self n o kw (mutable_vars hints o) []) as [[h2 processed]|] eqn:El;
     [|discriminate].
